@@ -27,6 +27,28 @@ impl ConvertOpt for Option<R> {
 
 //@item src/confidence.rs enum Confidence derive=Clone,Copy
 //@impl src/confidence.rs impl Confidence
+//@fn new ret r
+//@| requires 0real < confidence.v() < 1real,
+//@| ensures r == Confidence::TwoSided(confidence),
+//@fn new_two_sided ret r
+//@| requires 0real < confidence.v() < 1real,
+//@| ensures r == Confidence::TwoSided(confidence),
+//@fn new_upper ret r
+//@| requires 0real < confidence.v() < 1real,
+//@| ensures r == Confidence::UpperOneSided(confidence),
+//@fn new_lower ret r
+//@| requires 0real < confidence.v() < 1real,
+//@| ensures r == Confidence::LowerOneSided(confidence),
+//@fn percent ret r
+//@| ensures r.v() == rmul(conf_level(*self), 100real),
+//@fn is_two_sided ret r
+//@| ensures r == (*self is TwoSided),
+//@fn is_one_sided ret r
+//@| ensures r == !(*self is TwoSided),
+//@fn is_upper ret r
+//@| ensures r == (*self is UpperOneSided),
+//@fn is_lower ret r
+//@| ensures r == (*self is LowerOneSided),
 //@fn level ret r
 //@| ensures r.v() == conf_level(*self),
 //@fn flipped ret r
